@@ -1,8 +1,9 @@
 import AbraModel.SpanTree
 import AbraModel.Drv.Util
 /- Driver for M12b `SpanTree`:
-   `spantree <ident|inner> <maxoff> <tree>`   tree ::= `(` kind lo hi id tree* `)`
+   `spantree <ident|inner|wf|wfi> <maxoff> <tree>`   tree ::= `(` kind lo hi id tree* `)`
    answer: `ok r0,r1,…,r<maxoff>` — per offset the id of the node the search returns, `-` for none;
+   for `wf`: `wf nested=<0|1> cut=<0|1> unique=<0|1>`, for `wfi`: `wfi inner=<0|1>` (the executable hypothesis checks);
    `bad-tree` when the tree has a shape the model does not know, `bad-op` for a malformed request. -/
 namespace Abra.Drv.SpanTree
 open Abra.SpanTree
@@ -58,6 +59,17 @@ def handleSpanTree : List String → String
       | "inner" =>
         match innerPlan ast with
         | some t => answers (fun off => searchI off t) maxoff
+        | none => "bad-tree"
+      -- the hypotheses of the search theorems, decided for this tree (maxoff is ignored)
+      | "wf" =>
+        match identPlan ast, innerPlan ast with
+        | some t, some _ =>
+          "wf nested=" ++ toString (nestedB t).toNat ++ " cut=" ++ toString (cutB t).toNat ++
+            " unique=" ++ toString (uniqueB t).toNat
+        | _, _ => "bad-tree"
+      | "wfi" =>
+        match innerPlan ast with
+        | some u => "wfi inner=" ++ toString (nestedIB u).toNat
         | none => "bad-tree"
       | _ => "bad-op"
     | _, _ => "bad-op"
